@@ -74,6 +74,35 @@ def make_case(r):
             pred = 'has:s has:%22%22 | has:check-sat &'
         rules = realrun.simple_spec(pred)
         chain = kind
+    if chain is None and r.random() < 0.15:
+        # A proposal that only the first (prelude) pass can make - binary
+        # reduction restricted to assert commands - becomes applicable after
+        # a later pass changed the input: 5 asserts; accepted are exactly all
+        # five, the four without the third, and the last two (a section of
+        # the assert list of the 4-assert input, but of no other list).
+        n = 5
+        lines = ['(declare-const k Int)'] + [
+            f'(assert (> k m{i}))' for i in range(1, n + 1)] + ['(check-sat)']
+        text = '\n'.join(lines) + '\n'
+
+        def conj(present, absent, ntok, nassert):
+            terms = [f'has:m{i}' for i in present] + [
+                f'has:m{i} !' for i in absent]
+            p = terms[0]
+            for t in terms[1:]:
+                p += f' {t} &'
+            return (p + f' ntok>={ntok} & ntok<={ntok} & '
+                    f'count:assert>={nassert} &')
+
+        alts = [conj([1, 2, 3, 4, 5], [], 48, 5),
+                conj([1, 2, 4, 5], [3], 40, 4),
+                conj([4, 5], [1, 2, 3], 24, 2)]
+        pred = alts[0]
+        for a in alts[1:]:
+            pred += f' {a} |'
+        pred += ' has:declare-const & has:check-sat &'
+        rules = realrun.simple_spec(pred)
+        chain = 'prelude'
     strat = r.choice(['hierarchical', 'hybrid'])
     if chain:
         strat = 'hierarchical'
@@ -85,7 +114,9 @@ def make_case(r):
         on = r.random() < 0.75 or g in ('core', 'smtlib')
         groups.append(f'--{g}' if on else f'--no-{g}')
     toggles = []
-    if chain and r.random() < 0.5:
+    if chain == 'prelude':
+        groups = [f'--no-{g}' if g != 'core' else '--core' for g in GROUPS]
+    elif chain and r.random() < 0.5:
         groups = [f'--no-{g}' for g in GROUPS] + ['--erase-node']
         if chain == 'string':
             groups += ['--str-constants']
